@@ -337,6 +337,12 @@ impl<'a> PlanBuilder<'a> {
 
         let mut output_plan = Vec::with_capacity(self.plan.len());
 
+        // Operators that have already been added to `output_plan`. An operator
+        // can become a candidate again after it has run, if one of its
+        // dependencies was available from the start (eg. it was supplied as an
+        // input) and is also produced by an operator that runs later.
+        let mut scheduled: FxHashSet<NodeId> = FxHashSet::default();
+
         // Initialize frontier with all operators that can be executed
         // from initially-available values.
         let mut frontier: Vec<(NodeId, &OperatorNode)> = Vec::new();
@@ -365,6 +371,7 @@ impl<'a> PlanBuilder<'a> {
                 .unwrap_or(0);
             let (next_op_id, op_node) = frontier.remove(op_pos);
             output_plan.push(next_op_id);
+            scheduled.insert(next_op_id);
 
             // Mark the operator's outputs as computed.
             resolved_values.extend(op_node.output_ids().iter().filter_map(|id| *id));
@@ -379,7 +386,9 @@ impl<'a> PlanBuilder<'a> {
                     continue;
                 };
                 for (candidate_op_id, candidate_op) in deps {
-                    if frontier.iter().any(|(op_id, _)| op_id == candidate_op_id) {
+                    if scheduled.contains(candidate_op_id)
+                        || frontier.iter().any(|(op_id, _)| op_id == candidate_op_id)
+                    {
                         continue;
                     }
 
